@@ -8,7 +8,7 @@ from ..runner import crash_violation
 PID = "C06"
 LEVEL = "model_checking"
 RULE = ("residue types with 1, 2, 3 (planar), 4 (chiral, user template) and 5 atoms and a residue with a virtual site, in "
-        "linear and branched molecules so that residues have 0-3 bonded neighbours, each neighbour built before or after; "
+        "linear and branched molecules so that residues have 0-3 bonded neighbours, each neighbour built before or after, incl. molecules whose residue ids restart and a generated 3-atom template in 2-3 molecules; "
         "backmapping factor {0.4, 1.0}; with and without pre-existing atom coordinates for a prefix; the optimiser answer at each "
         "residue is chosen from the real L-BFGS answer (default) and all 216 angle triples over {0, pi/2, pi, 3pi/2, 1.0, 2.5} "
         "(<=1 deviating residue per execution; thorough <=2 over a 27-triple subset). Oracle per backmapped residue: centre of "
@@ -34,6 +34,11 @@ TYPEDEFS = {
     "PERM": dict(res=[("R4", ["c", "x", "y", "z"]), ("R4", ["z", "x", "c", "y"]), ("R4", ["y", "z", "x", "c"])],
                  edges=[(0, 1), (1, 2)], intra={"c": ["x"], "x": ["y"], "y": ["z"]}, anchor="c"),
     "SOLO": dict(res=[("R4", ["c", "x", "y", "z"])], edges=[]),
+    # residue ids restart inside the molecule (blocks numbered separately / neighbours sharing an id, told apart by name)
+    "DUPA": dict(res=[("R3", ["p", "q", "r"]), ("R3", ["p", "q", "r"]), ("R4", ["c", "x", "y", "z"]), ("R4", ["c", "x", "y", "z"])],
+                 resids=[1, 2, 1, 2], edges=[(0, 1), (1, 2), (2, 3)]),
+    "DUPN": dict(res=[("R3", ["p", "q", "r"]), ("R4", ["c", "x", "y", "z"]), ("R3", ["p", "q", "r"]), ("R4", ["c", "x", "y", "z"])],
+                 resids=[1, 1, 2, 2], edges=[(0, 1), (1, 2), (2, 3)]),
     # G3 has no user template: polyply generates one (bonds only, so the bending angle is whatever the optimisation finds)
     "GEN": dict(res=[("G3", ["u", "v", "w"]), ("G3", ["u", "v", "w"]), ("R1", ["a"])], edges=[(0, 1), (1, 2)]),
 }
@@ -76,13 +81,13 @@ VOLS = {"R1": 0.5, "R2": 0.5, "R3": 0.5, "R4": 0.5, "R5": 0.5, "G3": 0.5}
 
 def systems(tier):
     out = []
-    for name in ("LIN", "STAR", "HUB", "SOLO", "PERM"):
-        for bf in (0.4, 1.0):
+    for name in ("LIN", "STAR", "HUB", "SOLO", "PERM", "DUPA", "DUPN"):
+        for bf in (0.4, 1.0) if not name.startswith("DUP") else (0.4,):
             out.append(dict(types=[name], typedefs={name: TYPEDEFS[name]}, molecules=[(name, 1)], box=[4.0, 4.0, 4.0],
                             grid=[[1.0, 1.0, 1.0], [2.5, 2.5, 2.5]], volumes=VOLS, bld_pre=TEMPLATES, kwargs=dict(bfudge=bf)))
     # two molecules of the same type: copies must be congruent; second system has a prefix of atom coordinates supplied
     out.append(dict(types=["LIN"], typedefs={"LIN": TYPEDEFS["LIN"]}, molecules=[("LIN", 2)], box=[4.0, 4.0, 4.0],
-                    grid=[[1.0, 1.0, 1.0], [2.5, 2.5, 2.5], [3.0, 1.0, 2.0]], volumes=VOLS, bld_pre=TEMPLATES, kwargs=dict(bfudge=0.4)))
+                    grid=[[1.0, 1.0, 1.0], [2.5, 2.5, 2.5], [3.0, 1.0, 2.0]], volumes=VOLS, bld_pre=TEMPLATES, kwargs=dict(bfudge=0.4), small_angles=True))
     out.append(dict(types=["LIN"], typedefs={"LIN": TYPEDEFS["LIN"]}, molecules=[("LIN", 1)], box=[4.0, 4.0, 4.0],
                     grid=[[1.0, 1.0, 1.0], [2.5, 2.5, 2.5]], volumes=VOLS, bld_pre=TEMPLATES, kwargs=dict(bfudge=0.4),
                     input=dict(kind="c", atoms=[(1, "R1", "a"), (2, "R3", "p"), (2, "R3", "q"), (2, "R3", "r")],
